@@ -4,7 +4,7 @@ import json,subprocess
 props=[json.loads(l) for l in open('/verif/properties.jsonl')]
 ids=[p['id'] for p in props]
 T={
- "C01":("differential vs denotational language model (R1); bounded-exhaustive small scope + seeded random ASTs with shrinking","4 C01",
+ "C01":("differential vs denotational language model (R1); two bounded-exhaustive scopes (small ASTs x flags; nested quantifiers over macro atoms) + seeded random ASTs with shrinking","4 C01",
         "is_match is compared with an order-independent language-membership model on every AST of size <=4 (quick) / <=5 (thorough) over a 3-letter alphabet x all short inputs x all subsets of i,m,s, and on seeded random structured patterns; a mismatch is shrunk and reported unless it is the listed ForceProgress / fixed-loop-backref finding",
         "trusts the R1 model (harness/src/oracle_lang.rs) and the R3/R4 character data; explores patterns <= ~20 nodes and inputs <= 8 characters"),
  "C02":("differential vs ordered-choice reference matcher (R2) and R1 match relation; seeded random ASTs with shrinking","4 C02",
@@ -13,22 +13,22 @@ T={
  "C03":("differential vs R2 last-participation captures + structural invariants of the analyze tree; seeded random ASTs with shrinking","4 C03",
         "group texts from replace_all ($N with non-digit delimiters) and analyze (Group tree) are compared with the reference's captures on matches whose spans agree with R2, and checked structurally on every match",
         "two listed known findings mask: empty Group for a non-participating group under a quantifier; wrong text for a group inside a loop"),
- "C04":("cross-API metamorphic relations; seeded random ASTs in both dialects with shrinking","4 C04",
+ "C04":("cross-API metamorphic relations; two bounded-exhaustive scopes + seeded random ASTs in both dialects with shrinking","4 C04",
         "pure relations between the three scanning APIs and is_match on the same input; no reference matcher involved, so it runs inside all known-finding regions too",
         "patterns the engine itself reports as nullable are left to C16"),
  "C05":("crash oracle over generated 4-tuples (valid ASTs, token-level mutants, random metacharacter strings, extreme bounds, precondition shapes) in worker processes with overflow checks on; libFuzzer campaign in the thorough tier","4 C05",
         "every API call and iterator step must end in Ok or one of the four classified errors; panics, overflow, aborts and Error::Internal are violations",
         "built with debug-assertions/overflow-checks; hangs are left to C06"),
- "C06":("bounded termination observation under a CPU-time watchdog with single-character-deletion growth test; seeded random quantifier-heavy patterns","4 C06",
+ "C06":("bounded termination observation under a CPU-time watchdog with single-character-deletion growth test; bounded-exhaustive nested-quantifier scope + seeded random quantifier-heavy patterns (+ libFuzzer in thorough)","4 C06",
         "calls must return and iterators must respect len+1 / 2*len+1 and stay exhausted; a call is judged non-terminating only if it exceeds 0.5 s then 10 s of CPU and every single-character deletion of the minimal such input returns in < 2 ms",
         "liveness is only observed within bounds (inputs <= 8, nesting <= 3); finite exponential backtracking is deliberately not reported"),
- "C08":("differential: same engine with all compile-time shortcuts disabled through the verification hook; generators biased to each shortcut","4 C08",
+ "C08":("differential: same engine with all compile-time shortcuts disabled through the verification hook; two bounded-exhaustive scopes + generators biased to each shortcut","4 C08",
         "all five APIs must agree value for value between the normal and the unoptimised compilation of the same pattern",
         "needs the cfg(regexml_verif) hook; parse-time quantifier simplifications are on both sides"),
  "C12":("differential vs R1/R2 with the anchor and dot rules; exhaustive inputs over {a,b,LF,CR} for all small anchor/dot ASTs + seeded random","4 C12",
         "is_match and span lists for patterns with ^, $ and . in arbitrary positions under the four m/s combinations",
         "same trust as C01/C02"),
- "C16":("differential vs R1 nullability (does the language contain the empty string); seeded random ASTs, half of them nullable","4 C16",
+ "C16":("differential vs R1 nullability (does the language contain the empty string); two bounded-exhaustive scopes + seeded random ASTs, half of them nullable","4 C16",
         "Err(MatchesEmptyString) from replace_all/analyze/tokenize must coincide with the oracle's answer; accepted regexes must never report a zero-length match",
         "trusts R1; patterns where the two capture readings disagree are not judged"),
  "C19":("differential vs R1 (all match paths with capture environments) and R2; multi-digit reference parsing checked behaviourally","4 C19",
@@ -40,7 +40,7 @@ T={
 }
 
 T.update({
- "C07":("accept/reject oracle from the grammar: rendered ASTs and curated valid patterns per production (must accept), curated provably-invalid mutations each with its grammar argument (must reject with Syntax), exhaustive flag strings <= 3","4 C07",
+ "C07":("accept/reject oracle from the grammar: rendered ASTs and curated valid patterns per production (must accept), curated provably-invalid mutations each with its grammar argument (must reject with Syntax), generated group skeletons with one back-reference whose legality a closed-groups model decides, exhaustive flag strings <= 3","4 C07",
         "acceptance of Regex::xpath is compared with the grammar in both directions; every production must be exercised (vacuity guard per production)",
         "random mutants without a grammar argument are not judged (they go to C05); debatable XSD corners ([a-c-e]) are not generated"),
  "C09":("differential vs set algebra over independent Unicode data (R4/R3); bulk membership over 4096-code-point chunks, all scalar values for a sample of expressions","4 C09",
